@@ -539,7 +539,7 @@ func (e Engine) Exec(sci interface{}, opt harness.ExecOpts) *harness.Outcome {
 	} else {
 		sched = mkSched(sc, len(sc.Tasks))
 	}
-	sim := simrt.New(simrt.Config{MaxSteps: 400000, Sched: sched, Order: sc.Order, KeepLog: opt.KeepLog,
+	sim := simrt.New(simrt.Config{MaxSteps: 5000000, Sched: sched, Order: sc.Order, KeepLog: opt.KeepLog,
 		OnStep: func(*simrt.Sim) { r.observe() }})
 
 	type reqResult struct {
@@ -651,7 +651,7 @@ func (e Engine) Exec(sci interface{}, opt harness.ExecOpts) *harness.Outcome {
 		out.Violate("I2-deadlock", "deadlock", "deadlock: %s", strings.Join(res.DeadlockAt, "; "))
 	}
 	if res.Capped {
-		out.Violate("I2-no-quiescence", "capped", "run did not quiesce within 400000 steps")
+		out.Violate("I2-no-quiescence", "capped", "run did not quiesce within 5000000 steps")
 	}
 	hasPanicImport := false
 	for _, t := range sc.Tasks {
